@@ -20,6 +20,8 @@ func init() {
 		Assumptions: []string{"proto.Merge / Marshal+Unmarshal copy; select picks a ready case"},
 		Run:         runC13,
 		Controls: []Control{
+			{Name: "merge-fast-path-by-descriptor-name", File: "pkg/wrap/stream.go", Old: "\tif dst.ProtoReflect().Descriptor() == src.ProtoReflect().Descriptor() {", New: "\tif dst.ProtoReflect().Descriptor().FullName() == src.ProtoReflect().Descriptor().FullName() {", Expect: "R13.19"},
+			{Name: "client-send-answers-with-the-context-error", File: "pkg/wrap/stream.go", Old: "\tm = copyOfMessage(m)\n\tselect {\n\tcase <-c.ctx.Done():\n\t\treturn c.closeErrLocked()", New: "\tm = copyOfMessage(m)\n\tselect {\n\tcase <-c.ctx.Done():\n\t\treturn c.ctx.Err()", Expect: "R13.20"},
 			{Name: "trailer-join-without-the-kept-trailer", File: "pkg/wrap/stream.go", Old: "\ts.trailer = metadata.Join(s.trailer, md)", New: "\ts.trailer = metadata.Join(md)", Expect: "R13.11"},
 			{Name: "revert-F68-client-send-hands-over-the-callers-message", File: "pkg/wrap/stream.go", Old: "func (c *clientStream) SendMsg(m any) error {\n\tm = copyOfMessage(m)\n", New: "func (c *clientStream) SendMsg(m any) error {\n", Expect: "R13.16"},
 			{Name: "trailer-joined-in-reverse", File: "pkg/wrap/stream.go", Old: "\ts.trailer = metadata.Join(s.trailer, md)\n", New: "\ts.trailer = metadata.Join(md, s.trailer)\n", Expect: "R13.11"},
@@ -52,6 +54,10 @@ func runC13(c *an.Ctx) {
 	c.Min("R13.15", 1)
 	r1316as(c, "R13.16")
 	c.Min("R13.16", 2)
+	r1319(c, "R13.19")
+	c.Min("R13.19", 1)
+	r1320(c, "R13.20")
+	c.Min("R13.20", 2)
 	// metadata the client can read is exactly what was sent: headers are written only while they have not gone out,
 	// and read only once they have (shared with R11.5 / R11.3, which report the same constructs as races)
 	shareAs(c, "R11.5", "R13.17", r115, nil)
@@ -1312,4 +1318,80 @@ func r1316as(c *an.Ctx, rule string) {
 		}
 	}
 	c.Count("sendmsg_sends", n)
+}
+
+// r1319: the two sides of the in-process stream must hold the SAME generated type for proto.Merge to be applicable:
+// it panics on messages whose descriptors are different objects, even when they have the same name (a dynamicpb
+// message built from a separately loaded descriptor). The fast path of permissiveProtoMerge is taken under an
+// identity comparison of the two Descriptor() values; anything weaker (comparing FullName()) turns a reply the
+// marshal/unmarshal path would have delivered into a panic.
+func r1319(c *an.Ctx, rule string) {
+	fn := mustFunc(c, rule, wrapPkg, "", "permissiveProtoMerge")
+	if fn == nil {
+		return
+	}
+	name := "pkg/wrap.permissiveProtoMerge"
+	n := 0
+	for _, f := range append([]*ssa.Function{fn}, an.TransparentCalleesOf(fn, 1)...) {
+		for _, ci := range an.CallsTo(f, "google.golang.org/protobuf/proto.Merge") {
+			call, ok := ci.(*ssa.Call)
+			if !ok {
+				continue
+			}
+			n++
+			identity := false
+			for _, e := range an.GuardingEdges(call) {
+				bo, isBo := e.If.Cond.(*ssa.BinOp)
+				if !isBo || !((bo.Op == token.EQL && e.Branch) || (bo.Op == token.NEQ && !e.Branch)) {
+					continue
+				}
+				isDesc := func(v ssa.Value) bool {
+					for _, s := range an.Sources(v) {
+						if cl, isCall := s.(*ssa.Call); isCall && cl.Call.IsInvoke() && cl.Call.Method.Name() == "Descriptor" {
+							return true
+						}
+					}
+					return false
+				}
+				if isDesc(bo.X) && isDesc(bo.Y) {
+					identity = true
+				}
+			}
+			c.Check(identity, rule, fmt.Sprintf("%s|proto.Merge #%d only between messages of one and the same descriptor", name, n), call.Pos(), "guarded by dst.Descriptor() == src.Descriptor()",
+				"proto.Merge is reached without an identity test of the two message descriptors: for two messages of the same name but separately loaded descriptors it panics (descriptor mismatch) where the marshal/unmarshal path delivers the message")
+		}
+	}
+	if n == 0 {
+		c.Ok(rule, name+"|no proto.Merge fast path", fn.Pos(), "every message crosses by marshal/unmarshal")
+	}
+}
+
+// r1320: a Send on a call that has ended reports how it ended. Both SendMsg methods answer their context's Done with
+// closeErrLocked() - io.EOF after a clean end (the gRPC contract: the status is then read with RecvMsg), the close
+// error otherwise. The bare context error (context.Canceled: the stream's own context is cancelled by Close) is not
+// what a real connection reports for a call the server ended.
+func r1320(c *an.Ctx, rule string) {
+	n := 0
+	for _, fn := range c.Prog.FuncsIn("pkg/wrap") {
+		if fn.Name() != "SendMsg" || fn.Parent() != nil || fn.Signature.Recv() == nil || fn.Synthetic != "" {
+			continue
+		}
+		name := an.FuncName(fn)
+		for _, r := range an.Returns(fn) {
+			if len(r.Results) != 1 || provablyNilAt(r.Results[0], r) {
+				continue
+			}
+			n++
+			viaClose := false
+			for _, v := range an.ValuesAt(r.Results[0]) {
+				if call, ok := v.(*ssa.Call); ok && strings.HasSuffix(an.CalleeName(call), "closeErrLocked") {
+					viaClose = true
+				}
+			}
+			c.SawFunc(name)
+			c.Check(viaClose, rule, fmt.Sprintf("%s|an ended call answers Send with its close outcome", name), r.Pos(), "returns closeErrLocked()",
+				"SendMsg answers an ended call with something other than the stream's close outcome (the bare context error): after the server ended the call cleanly the client's next Send returns context.Canceled instead of io.EOF")
+		}
+	}
+	c.Count("sendmsg_error_returns", n)
 }
